@@ -145,11 +145,14 @@ def do_mutation(pipeline, mut: dict, outputs_of: dict[str, list[str]]) -> None:
             raise ValueError(kind)
 
 
-def func_state(pipeline, name: str, outputs: list[str], cache: bool) -> dict:
+def func_state(pipeline, name: str, outputs: list[str], cache: bool, base: dict | None = None) -> dict:
     """Current description record (TLA+/JSON form) of one function of a live pipeline, read from its public
-    attributes (parameters, defaults, bound)."""
+    attributes (parameters, defaults, bound); every other field (retnone, outperm, ...) is taken from `base`,
+    the record the function was built from."""
     pf = pipeline[output_name_of({"outputs": outputs})]
-    return {"name": name, "params": list(pf.parameters), "outputs": list(outputs),
-            "defaults": [[p, to_json(v)] for p, v in pf.defaults.items()],
-            "bound": [[p, to_json(v)] for p, v in pf.bound.items()],
-            "has_ms": False, "ms": {"ins": [], "outs": []}, "internal": [], "cache": bool(cache)}
+    rec = dict(base or {})
+    rec.update({"name": name, "params": list(pf.parameters), "outputs": list(outputs),
+                "defaults": [[p, to_json(v)] for p, v in pf.defaults.items()],
+                "bound": [[p, to_json(v)] for p, v in pf.bound.items()],
+                "has_ms": False, "ms": {"ins": [], "outs": []}, "internal": [], "cache": bool(cache)})
+    return rec
